@@ -5,6 +5,7 @@
 //! is the choice). The reference is a sequential registry replayed over the event log.
 
 use std::cell::RefCell;
+use crate::kit::builder;
 use std::collections::VecDeque;
 use std::rc::Rc;
 
@@ -425,4 +426,161 @@ fn replay(events: &[Ev], progs: &[Vec<(u8, bool)>], feats: &mut Vec<&'static str
         }
     }
     None
+}
+
+// ---------------------------------------------------------------------------------------
+// Part 2: synchronous triggers from the filesystem corruption hook, through a real Sim.
+// A host reads files with corruption_probability 1 (every non-empty read is corrupted and
+// fires one FsCorruption trigger) or 0; barriers on FsCorruption with overlapping
+// conditions are created / dropped at chosen steps; every corrupted read (recognised by
+// comparing the returned bytes with what was written) must be reported exactly once, in
+// order, to the earliest-created live matching barrier, with the right path and offset.
+
+fn poll_barrier(b: &mut Barrier<turmoil::fs::FsCorruption>) -> Vec<(String, u64, usize)> {
+    use std::future::Future;
+    let mut out = vec![];
+    loop {
+        let w = std::task::Waker::noop();
+        let mut cx = std::task::Context::from_waker(&w);
+        let mut fut = Box::pin(b.wait());
+        match fut.as_mut().poll(&mut cx) {
+            std::task::Poll::Ready(Some(t)) => out.push((t.path.display().to_string(), t.offset, t.len)),
+            _ => break,
+        }
+    }
+    out
+}
+
+pub fn fs_hook_scenario(ch: &mut Chooser, thorough: bool) -> Exec {
+    use turmoil::fs::shim::std::fs;
+    use turmoil::fs::FsCorruption;
+    let prob_one = !ch.flag("corruption_probability_zero");
+    // barrier set-up: which barriers exist (created in this order) and when they are dropped
+    // kinds: 0 = matches every FsCorruption, 1 = only path /a, 2 = only path /b
+    let setups: &[&[u8]] = &[&[], &[0], &[1], &[1, 0], &[0, 1], &[2, 1], &[1, 1]];
+    let setup: Vec<u8> = ch.of("barriers(created in this order; 0=any 1=/a 2=/b)", setups).to_vec();
+    let drop_first_before = if setup.is_empty() { 9 } else { *ch.of("first_barrier_dropped_before_read", &[9usize, 0, 1, 2, 3]) };
+    let late_barrier_before = *ch.of("extra_any_barrier_created_before_read", &[9usize, 1, 2]);
+    let nreads = if thorough { 4 } else { 3 };
+    // reads: (file, offset, len)
+    let mut reads: Vec<(usize, u64, usize)> = vec![];
+    for _ in 0..nreads {
+        let f = ch.choose("read_file(/a|/b)", 2);
+        let (off, len) = *ch.of("read_range", &[(0u64, 4usize), (2, 3), (5, 1)]);
+        reads.push((f, off, len));
+    }
+    let content = |f: usize| -> Vec<u8> { (0..8u8).map(|i| i * 3 + 1 + f as u8 * 100).collect() };
+
+    let mut b = builder(1);
+    b.fs().corruption_probability(if prob_one { 1.0 } else { 0.0 });
+    let mut sim = b.build();
+    // shared script state: which read to perform in this step, and the result
+    let cur: Rc<RefCell<Option<(usize, u64, usize)>>> = Rc::new(RefCell::new(None));
+    let res: Rc<RefCell<Vec<(usize, u64, Vec<u8>)>>> = Rc::new(RefCell::new(vec![]));
+    let (cur2, res2) = (cur.clone(), res.clone());
+    sim.host("h", move || {
+        let (cur2, res2) = (cur2.clone(), res2.clone());
+        async move {
+            use std::os::unix::fs::FileExt;
+            fs::write("/a", (0..8u8).map(|i| i * 3 + 1).collect::<Vec<u8>>())?;
+            fs::write("/b", (0..8u8).map(|i| i * 3 + 101).collect::<Vec<u8>>())?;
+            loop {
+                let c = cur2.borrow_mut().take();
+                if let Some((f, off, len)) = c {
+                    let file = fs::File::open(if f == 0 { "/a" } else { "/b" })?;
+                    let mut buf = vec![0u8; len];
+                    let n = file.read_at(&mut buf, off)?;
+                    buf.truncate(n);
+                    res2.borrow_mut().push((f, off, buf));
+                }
+                tokio::time::sleep(std::time::Duration::from_millis(1)).await;
+            }
+        }
+    });
+    let mk = |kind: u8| -> Barrier<FsCorruption> {
+        match kind {
+            0 => Barrier::build(Reaction::Noop, |_e: &FsCorruption| true),
+            1 => Barrier::build(Reaction::Noop, |e: &FsCorruption| e.path == std::path::Path::new("/a")),
+            _ => Barrier::build(Reaction::Noop, |e: &FsCorruption| e.path == std::path::Path::new("/b")),
+        }
+    };
+    // live barriers in creation order: (kind, barrier, log)
+    let mut live: Vec<(u8, Barrier<FsCorruption>, Vec<(String, u64, usize)>)> = setup.iter().map(|k| (*k, mk(*k), vec![])).collect();
+    let mut expected: Vec<Vec<(String, u64, usize)>> = vec![vec![]; live.len()];
+    let mut ids: Vec<usize> = (0..live.len()).collect(); // index into expected per live barrier
+    let mut finished: Vec<(usize, Vec<(String, u64, usize)>)> = vec![];
+    let mut violation: Option<Violation> = None;
+    let mut obs: Vec<String> = vec![];
+    let _ = sim.step(); // files are written
+    for (i, &(f, off, len)) in reads.iter().enumerate() {
+        if i == drop_first_before && !live.is_empty() {
+            let (_, mut bar, mut logv) = live.remove(0);
+            logv.extend(poll_barrier(&mut bar));
+            finished.push((ids.remove(0), logv));
+            drop(bar);
+            obs.push(format!("before read {i}: first barrier dropped"));
+        }
+        if i == late_barrier_before {
+            live.push((0, mk(0), vec![]));
+            expected.push(vec![]);
+            ids.push(expected.len() - 1);
+            obs.push(format!("before read {i}: extra match-all barrier created"));
+        }
+        *cur.borrow_mut() = Some((f, off, len));
+        if let Err(e) = vx_core::catch(|| sim.step()).unwrap_or_else(|p| Err(p.into())) {
+            violation = Some(Violation::new("sim-error", e.to_string()));
+            break;
+        }
+        let got = res.borrow().last().cloned();
+        let Some((_, _, data)) = got else {
+            violation = Some(Violation::new("harness", "read did not happen".into()));
+            break;
+        };
+        let want: Vec<u8> = content(f)[off as usize..(off as usize + len).min(8)].to_vec();
+        obs.push(format!("read {i}: file {} off {off} len {len} -> {data:?} (written {want:?})", if f == 0 { "/a" } else { "/b" }));
+        let diffs: Vec<usize> = (0..data.len().min(want.len())).filter(|&k| data[k] != want[k]).collect();
+        if prob_one && (diffs.len() != 1 || data.len() != want.len()) {
+            violation = Some(Violation::new("corruption-shape", format!("corruption_probability 1: read returned {data:?} for written {want:?} (expected exactly one altered byte)")));
+            break;
+        }
+        if !prob_one && data != want {
+            violation = Some(Violation::new("corruption-shape", format!("corruption_probability 0 but read returned {data:?} for written {want:?}")));
+            break;
+        }
+        if let Some(&k) = diffs.first() {
+            // the earliest-created live barrier whose condition matches receives it
+            let path = if f == 0 { "/a" } else { "/b" };
+            let target = live.iter().position(|(kind, _, _)| *kind == 0 || (*kind == 1 && f == 0) || (*kind == 2 && f == 1));
+            if let Some(t) = target {
+                expected[ids[t]].push((path.to_string(), off + k as u64, 1));
+            }
+        }
+        for (_, bar, logv) in live.iter_mut() {
+            logv.extend(poll_barrier(bar));
+        }
+    }
+    if violation.is_none() {
+        for (j, (_, _, logv)) in live.iter().enumerate() {
+            finished.push((ids[j], logv.clone()));
+        }
+        for (id, logv) in &finished {
+            if *logv != expected[*id] {
+                violation = Some(Violation::new(
+                    "fs-hook-reports",
+                    format!("barrier #{id} (creation order) was reported {:?}, expected {:?}: every corrupted read goes exactly once, in order, to the earliest-created live matching barrier", logv, expected[*id]),
+                ));
+                break;
+            }
+        }
+    }
+    if let Some(v) = violation.as_mut() {
+        v.sig = format!("fs-hook|{}", v.clause);
+        v.scenario = format!("c20 part=2 tier={} prob_one={prob_one} setup={setup:?} drop_first_before={drop_first_before} late={late_barrier_before} reads={reads:?}", if thorough { "thorough" } else { "quick" });
+        v.actions = obs.clone();
+    }
+    let mut feats = vec![];
+    if expected.iter().any(|e| !e.is_empty()) {
+        feats.push("hook-reported");
+    }
+    Exec { outcome: Digest::of64(&obs), violation, features: feats }
 }
